@@ -194,6 +194,9 @@ func exprShape(e zr.Expr) string {
 }
 
 func (c *Ctx) runRefCases(kind string, progs []*zr.Program, inputs []map[string]Val, shapes []string, layout func(i int) zr.Layout, extra func(i int, src string, ref zr.Result, resp *Resp)) {
+	if note := " Second entry points: every 4th reference case without inputs or program-level 输出 is also run as the body of a module imported by a one-line main program (same display, same failure, the importer runs on), every 6th is also posted to the playground handler (same display, status 200 + the value's display form / status 500 as Execute yields a value / an error)."; !strings.Contains(c.rule, "Second entry points") {
+		c.rule += note
+	}
 	reqs := make([]Req, len(progs))
 	refs := make([]zr.Result, len(progs))
 	srcs := make([]string, len(progs))
@@ -218,8 +221,18 @@ func (c *Ctx) runRefCases(kind string, progs []*zr.Program, inputs []map[string]
 		r.EvalBudget = 50*refs[i].Steps + 2000
 		reqs[i] = r
 	}
+	type directRun struct {
+		kind, str, display string
+		null               bool
+	}
+	direct := make([]directRun, len(progs))
 	c.runBatches(reqs, 250, func(i int, req *Req, resp *Resp) {
 		c.Eval()
+		direct[i] = directRun{kind: resp.Kind, display: resp.Display}
+		if resp.Val != nil {
+			direct[i].str = resp.Val.Str
+			direct[i].null = resp.Val.T == "null"
+		}
 		status, diff := compareOutcome(refs[i], resp)
 		c.Count(kind+"_"+status, 1)
 		shape := ""
@@ -257,6 +270,148 @@ func (c *Ctx) runRefCases(kind string, progs []*zr.Program, inputs []map[string]
 			// every successful run ends with nothing left behind in the VM (call stack, scope
 			// depths, evaluation depth): hooks H3 / H3b / H4
 			quiescent(c, kind, shape, srcs[i], resp)
+		}
+	})
+	if kind != "expr" {
+		c.runAsModules(kind, progs, srcs, refs, shapes, 4)
+	}
+	// "the other host": the same source posted to the playground handler (the way cmd/zinc-playground
+	// and the prefork workers run programs) must do what Execute did with it: same display, status
+	// 200 and the value's display form as the body where Execute yielded a value, status 500 where
+	// it ended with an error
+	{
+		idx := []int{}
+		preqs := []Req{}
+		for i, p := range progs {
+			if i%6 != 2 || len(p.Inputs) > 0 || len(p.Imports) > 0 || (direct[i].kind != "value" && direct[i].kind != "error") {
+				continue
+			}
+			if _, unspec := refs[i].Err.(*zr.Unspec); unspec {
+				continue
+			}
+			idx = append(idx, i)
+			preqs = append(preqs, Req{Op: "pg", Src: Runes(srcs[i]), EvalBudget: 50*refs[i].Steps + 4000})
+		}
+		c.runBatches(preqs, 250, func(k int, req *Req, resp *Resp) {
+			c.Eval()
+			i := idx[k]
+			d := direct[i]
+			c.Count(kind+"_through_playground", 1)
+			code := 0
+			if len(resp.Ints) > 0 {
+				code = resp.Ints[0]
+			}
+			body := ""
+			if resp.Val != nil {
+				body = resp.Val.S()
+			}
+			problem := ""
+			switch {
+			case resp.Kind != "value":
+				problem = "the handler did not answer: " + resp.Kind + " " + clip(resp.Panic+resp.Stderr, 300)
+			case resp.Display != d.display:
+				problem = fmt.Sprintf("display %q, through Execute %q", clip(resp.Display, 300), clip(d.display, 300))
+			case d.kind == "value" && code != 200:
+				problem = fmt.Sprintf("status %d (%s) although Execute yields a value", code, clip(body, 200))
+			case d.kind == "error" && code == 200:
+				problem = fmt.Sprintf("status 200 (%s) although Execute ends with an error", clip(body, 200))
+			case d.kind == "value" && !d.null && body != d.str:
+				problem = fmt.Sprintf("body %q, but the value Execute yields displays as %q", clip(body, 200), clip(d.str, 200))
+			case d.kind == "value" && d.null && body != "":
+				problem = fmt.Sprintf("body %q for a program that yields 空", clip(body, 200))
+			}
+			c.Nontrivial(kind + "-playground|" + fmt.Sprint(code) + "|" + shapeClass(shapesAt(shapes, i)))
+			if problem != "" {
+				c.Violation(kind+"-playground:"+shapeClass(shapesAt(shapes, i))+":"+srcs[i], "posted to the playground handler: "+problem+"\nprogram:\n"+srcs[i], map[string]interface{}{"req": req})
+			}
+		})
+	}
+}
+
+func shapesAt(shapes []string, i int) string {
+	if shapes == nil {
+		return ""
+	}
+	return shapes[i]
+}
+
+// topLevelReturn: does the program body (outside method / type definitions) hold a 输出 anywhere?
+func topLevelReturn(stmts []zr.Stmt) bool {
+	for _, st := range stmts {
+		switch x := st.(type) {
+		case zr.Return:
+			return true
+		case zr.If:
+			if topLevelReturn(x.Then) || topLevelReturn(x.Else) {
+				return true
+			}
+			for _, e := range x.Elifs {
+				if topLevelReturn(e.Body) {
+					return true
+				}
+			}
+		case zr.While:
+			if topLevelReturn(x.Body) {
+				return true
+			}
+		case zr.Iter:
+			if topLevelReturn(x.Body) {
+				return true
+			}
+		case zr.Verbatim:
+			return true // opaque to this walker: not used for the module variant
+		}
+	}
+	return false
+}
+
+// runAsModules: "the second entry point". The same generated programs, each as the body of a module
+// that a one-line main program imports: a module body is a body like any other, so it must display
+// what the reference says the program displays, fail where the program fails, and let the importer
+// run on (one more display line) where it does not. Programs with inputs, imports of their own or a
+// 输出 at program level (what that means in a module body is not stated anywhere) are left out.
+func (c *Ctx) runAsModules(kind string, progs []*zr.Program, srcs []string, refs []zr.Result, shapes []string, every int) {
+	idx := []int{}
+	reqs := []Req{}
+	for i, p := range progs {
+		if i%every != 1 || len(p.Inputs) > 0 || len(p.Imports) > 0 || topLevelReturn(p.Body) {
+			continue
+		}
+		if _, unspec := refs[i].Err.(*zr.Unspec); unspec {
+			continue
+		}
+		hasRet := false
+		for _, ct := range p.Catches {
+			hasRet = hasRet || topLevelReturn(ct.Body)
+		}
+		if hasRet {
+			continue
+		}
+		idx = append(idx, i)
+		reqs = append(reqs, Req{Op: "exec", Main: "main.zn", EvalBudget: 50*refs[i].Steps + 4000, ParseBudget: 64 * (len(srcs[i]) + 200),
+			Files: []File{{Path: "main.zn", Data: widen([]byte("导入“模”\n（显示：“主完”）\n"))}, {Path: "模.zn", Data: widen([]byte(srcs[i]))}}})
+	}
+	c.runBatches(reqs, 250, func(k int, req *Req, resp *Resp) {
+		c.Eval()
+		i := idx[k]
+		ref := refs[i]
+		ref.ValueUnspec = true
+		if ref.Err == nil {
+			ref.Display = append(append([]string{}, ref.Display...), "主完")
+		}
+		status, diff := compareOutcome(ref, resp)
+		c.Count(kind+"_as_module_"+status, 1)
+		shape := ""
+		if shapes != nil {
+			shape = shapes[i]
+		}
+		if status == "skip" {
+			return
+		}
+		c.Nontrivial(kind + "-as-module|" + shape + "|" + resp.Kind)
+		if status == "diff" {
+			c.Violation(kind+"-as-module:"+shapeClass(shape)+":"+srcs[i], "as the body of an imported module (main program: 导入“模” / （显示：“主完”）): "+diff+"\nmodule 模.zn:\n"+srcs[i]+"\nreference: "+outcomeBrief(refs[i])+fmt.Sprintf(" display=%q", ref.Display),
+				map[string]interface{}{"req": req, "expected": fmt.Sprintf("display=%q", ref.Display)})
 		}
 	})
 }
